@@ -126,6 +126,8 @@ type Config struct {
 	GenesisTimestamp     uint32 // overrides GenesisAge when non-zero
 	MaxBlockCache        int
 	KeepEventsForHeights int
+	// MaxTransactionsLength: payload limit of a block (default 15 KiB).
+	MaxTransactionsLength uint32
 	ChainID              []byte
 	FS                   vfs.FS // default: fresh vfs.NewMem()
 	PebbleOpts           *pebble.Options
@@ -181,6 +183,9 @@ type fence struct{}
 func (c *Config) defaults() {
 	if c.BatchSize == 0 {
 		c.BatchSize = len(c.Genesis.Members)
+	}
+	if c.MaxTransactionsLength == 0 {
+		c.MaxTransactionsLength = 15 * 1024
 	}
 	if c.BlockTime == 0 {
 		c.BlockTime = 10
@@ -289,7 +294,7 @@ func (n *Node) open() error {
 	})
 	n.Chain = blockchain.NewChain(&blockchain.ChainConfig{
 		ChainID:               n.Cfg.ChainID,
-		MaxTransactionsLength: 15 * 1024,
+		MaxTransactionsLength: n.Cfg.MaxTransactionsLength,
 		MaxBlockCache:         n.Cfg.MaxBlockCache,
 		KeepEventsForHeights:  n.Cfg.KeepEventsForHeights,
 	})
